@@ -46,6 +46,40 @@ func init() {
 			}
 			return pk.Bytes(), sk.Bytes(), nil
 		},
+		newKeys: func() (interface{}, interface{}) { return new(mldsa44.PublicKey), new(mldsa44.PrivateKey) },
+		unpackInto: func(pk, sk interface{}, pkb, skb []byte) {
+			if pk != nil {
+				var buf [mldsa44.PublicKeySize]byte
+				copy(buf[:], pkb)
+				pk.(*mldsa44.PublicKey).Unpack(&buf)
+			}
+			if sk != nil {
+				var buf [mldsa44.PrivateKeySize]byte
+				copy(buf[:], skb)
+				sk.(*mldsa44.PrivateKey).Unpack(&buf)
+			}
+		},
+		packFrom: func(pk, sk interface{}) (pkb, skb []byte) {
+			if pk != nil {
+				var buf [mldsa44.PublicKeySize]byte
+				pk.(*mldsa44.PublicKey).Pack(&buf)
+				pkb = buf[:]
+			}
+			if sk != nil {
+				var buf [mldsa44.PrivateKeySize]byte
+				sk.(*mldsa44.PrivateKey).Pack(&buf)
+				skb = buf[:]
+			}
+			return
+		},
+		assign: func(dstPk, dstSk, srcPk, srcSk interface{}) {
+			if dstPk != nil {
+				*dstPk.(*mldsa44.PublicKey) = *srcPk.(*mldsa44.PublicKey)
+			}
+			if dstSk != nil {
+				*dstSk.(*mldsa44.PrivateKey) = *srcSk.(*mldsa44.PrivateKey)
+			}
+		},
 		signRand: func(sk interface{}, msg, ctx []byte) ([]byte, error) {
 			sig := make([]byte, mldsa44.SignatureSize)
 			err := mldsa44.SignTo(sk.(*mldsa44.PrivateKey), msg, ctx, true, sig)
@@ -101,6 +135,40 @@ func init() {
 			}
 			return pk.Bytes(), sk.Bytes(), nil
 		},
+		newKeys: func() (interface{}, interface{}) { return new(mldsa65.PublicKey), new(mldsa65.PrivateKey) },
+		unpackInto: func(pk, sk interface{}, pkb, skb []byte) {
+			if pk != nil {
+				var buf [mldsa65.PublicKeySize]byte
+				copy(buf[:], pkb)
+				pk.(*mldsa65.PublicKey).Unpack(&buf)
+			}
+			if sk != nil {
+				var buf [mldsa65.PrivateKeySize]byte
+				copy(buf[:], skb)
+				sk.(*mldsa65.PrivateKey).Unpack(&buf)
+			}
+		},
+		packFrom: func(pk, sk interface{}) (pkb, skb []byte) {
+			if pk != nil {
+				var buf [mldsa65.PublicKeySize]byte
+				pk.(*mldsa65.PublicKey).Pack(&buf)
+				pkb = buf[:]
+			}
+			if sk != nil {
+				var buf [mldsa65.PrivateKeySize]byte
+				sk.(*mldsa65.PrivateKey).Pack(&buf)
+				skb = buf[:]
+			}
+			return
+		},
+		assign: func(dstPk, dstSk, srcPk, srcSk interface{}) {
+			if dstPk != nil {
+				*dstPk.(*mldsa65.PublicKey) = *srcPk.(*mldsa65.PublicKey)
+			}
+			if dstSk != nil {
+				*dstSk.(*mldsa65.PrivateKey) = *srcSk.(*mldsa65.PrivateKey)
+			}
+		},
 		signRand: func(sk interface{}, msg, ctx []byte) ([]byte, error) {
 			sig := make([]byte, mldsa65.SignatureSize)
 			err := mldsa65.SignTo(sk.(*mldsa65.PrivateKey), msg, ctx, true, sig)
@@ -155,6 +223,40 @@ func init() {
 				return nil, nil, err
 			}
 			return pk.Bytes(), sk.Bytes(), nil
+		},
+		newKeys: func() (interface{}, interface{}) { return new(mldsa87.PublicKey), new(mldsa87.PrivateKey) },
+		unpackInto: func(pk, sk interface{}, pkb, skb []byte) {
+			if pk != nil {
+				var buf [mldsa87.PublicKeySize]byte
+				copy(buf[:], pkb)
+				pk.(*mldsa87.PublicKey).Unpack(&buf)
+			}
+			if sk != nil {
+				var buf [mldsa87.PrivateKeySize]byte
+				copy(buf[:], skb)
+				sk.(*mldsa87.PrivateKey).Unpack(&buf)
+			}
+		},
+		packFrom: func(pk, sk interface{}) (pkb, skb []byte) {
+			if pk != nil {
+				var buf [mldsa87.PublicKeySize]byte
+				pk.(*mldsa87.PublicKey).Pack(&buf)
+				pkb = buf[:]
+			}
+			if sk != nil {
+				var buf [mldsa87.PrivateKeySize]byte
+				sk.(*mldsa87.PrivateKey).Pack(&buf)
+				skb = buf[:]
+			}
+			return
+		},
+		assign: func(dstPk, dstSk, srcPk, srcSk interface{}) {
+			if dstPk != nil {
+				*dstPk.(*mldsa87.PublicKey) = *srcPk.(*mldsa87.PublicKey)
+			}
+			if dstSk != nil {
+				*dstSk.(*mldsa87.PrivateKey) = *srcSk.(*mldsa87.PrivateKey)
+			}
 		},
 		signRand: func(sk interface{}, msg, ctx []byte) ([]byte, error) {
 			sig := make([]byte, mldsa87.SignatureSize)
@@ -212,6 +314,40 @@ func init() {
 			}
 			return pk.Bytes(), sk.Bytes(), nil
 		},
+		newKeys: func() (interface{}, interface{}) { return new(mode2.PublicKey), new(mode2.PrivateKey) },
+		unpackInto: func(pk, sk interface{}, pkb, skb []byte) {
+			if pk != nil {
+				var buf [mode2.PublicKeySize]byte
+				copy(buf[:], pkb)
+				pk.(*mode2.PublicKey).Unpack(&buf)
+			}
+			if sk != nil {
+				var buf [mode2.PrivateKeySize]byte
+				copy(buf[:], skb)
+				sk.(*mode2.PrivateKey).Unpack(&buf)
+			}
+		},
+		packFrom: func(pk, sk interface{}) (pkb, skb []byte) {
+			if pk != nil {
+				var buf [mode2.PublicKeySize]byte
+				pk.(*mode2.PublicKey).Pack(&buf)
+				pkb = buf[:]
+			}
+			if sk != nil {
+				var buf [mode2.PrivateKeySize]byte
+				sk.(*mode2.PrivateKey).Pack(&buf)
+				skb = buf[:]
+			}
+			return
+		},
+		assign: func(dstPk, dstSk, srcPk, srcSk interface{}) {
+			if dstPk != nil {
+				*dstPk.(*mode2.PublicKey) = *srcPk.(*mode2.PublicKey)
+			}
+			if dstSk != nil {
+				*dstSk.(*mode2.PrivateKey) = *srcSk.(*mode2.PrivateKey)
+			}
+		},
 		verify: func(pk interface{}, msg, ctx, sig []byte) bool {
 			return mode2.Verify(pk.(*mode2.PublicKey), msg, sig)
 		},
@@ -263,6 +399,40 @@ func init() {
 			}
 			return pk.Bytes(), sk.Bytes(), nil
 		},
+		newKeys: func() (interface{}, interface{}) { return new(mode3.PublicKey), new(mode3.PrivateKey) },
+		unpackInto: func(pk, sk interface{}, pkb, skb []byte) {
+			if pk != nil {
+				var buf [mode3.PublicKeySize]byte
+				copy(buf[:], pkb)
+				pk.(*mode3.PublicKey).Unpack(&buf)
+			}
+			if sk != nil {
+				var buf [mode3.PrivateKeySize]byte
+				copy(buf[:], skb)
+				sk.(*mode3.PrivateKey).Unpack(&buf)
+			}
+		},
+		packFrom: func(pk, sk interface{}) (pkb, skb []byte) {
+			if pk != nil {
+				var buf [mode3.PublicKeySize]byte
+				pk.(*mode3.PublicKey).Pack(&buf)
+				pkb = buf[:]
+			}
+			if sk != nil {
+				var buf [mode3.PrivateKeySize]byte
+				sk.(*mode3.PrivateKey).Pack(&buf)
+				skb = buf[:]
+			}
+			return
+		},
+		assign: func(dstPk, dstSk, srcPk, srcSk interface{}) {
+			if dstPk != nil {
+				*dstPk.(*mode3.PublicKey) = *srcPk.(*mode3.PublicKey)
+			}
+			if dstSk != nil {
+				*dstSk.(*mode3.PrivateKey) = *srcSk.(*mode3.PrivateKey)
+			}
+		},
 		verify: func(pk interface{}, msg, ctx, sig []byte) bool {
 			return mode3.Verify(pk.(*mode3.PublicKey), msg, sig)
 		},
@@ -313,6 +483,40 @@ func init() {
 				return nil, nil, err
 			}
 			return pk.Bytes(), sk.Bytes(), nil
+		},
+		newKeys: func() (interface{}, interface{}) { return new(mode5.PublicKey), new(mode5.PrivateKey) },
+		unpackInto: func(pk, sk interface{}, pkb, skb []byte) {
+			if pk != nil {
+				var buf [mode5.PublicKeySize]byte
+				copy(buf[:], pkb)
+				pk.(*mode5.PublicKey).Unpack(&buf)
+			}
+			if sk != nil {
+				var buf [mode5.PrivateKeySize]byte
+				copy(buf[:], skb)
+				sk.(*mode5.PrivateKey).Unpack(&buf)
+			}
+		},
+		packFrom: func(pk, sk interface{}) (pkb, skb []byte) {
+			if pk != nil {
+				var buf [mode5.PublicKeySize]byte
+				pk.(*mode5.PublicKey).Pack(&buf)
+				pkb = buf[:]
+			}
+			if sk != nil {
+				var buf [mode5.PrivateKeySize]byte
+				sk.(*mode5.PrivateKey).Pack(&buf)
+				skb = buf[:]
+			}
+			return
+		},
+		assign: func(dstPk, dstSk, srcPk, srcSk interface{}) {
+			if dstPk != nil {
+				*dstPk.(*mode5.PublicKey) = *srcPk.(*mode5.PublicKey)
+			}
+			if dstSk != nil {
+				*dstSk.(*mode5.PrivateKey) = *srcSk.(*mode5.PrivateKey)
+			}
 		},
 		verify: func(pk interface{}, msg, ctx, sig []byte) bool {
 			return mode5.Verify(pk.(*mode5.PublicKey), msg, sig)
